@@ -415,10 +415,26 @@ Fixpoint match_symbol (l : list (str * tkind)) (r : str) : option (tkind * nat) 
       match starts lit r with Some _ => Some (k, length lit) | None => match_symbol l' r end
   end.
 
-(** WORD / RE_PROPERTY: length of the match, 0 when none. *)
+(** WORD / RE_PROPERTY: length of the match, 0 when none. After the first
+    character: word characters, and a hyphen unless it is immediately followed
+    by the two characters that close an output or a tag (C18/0004: the hyphen
+    of [{{x-}}] is whitespace control, not a part of the name). *)
+Fixpoint word_tail (r : str) : nat :=
+  match r with
+  | c :: r' =>
+      if N.eqb c 45 then
+        match r' with
+        | d :: e :: _ =>
+            if (N.eqb d 125 || N.eqb d 37) && N.eqb e 125 then 0 else S (word_tail r')
+        | _ => S (word_tail r')
+        end
+      else if is_word_start c || is_digit c then S (word_tail r') else 0
+  | [] => 0
+  end.
+
 Definition word_len (r : str) : nat :=
   match r with
-  | c :: r' => if is_word_start c then S (fst (take_while is_word_char r')) else 0
+  | c :: r' => if is_word_start c then S (word_tail r') else 0
   | [] => 0
   end.
 
